@@ -154,3 +154,54 @@ def run(ctx, fx, files, rule="R-ERRDEAD", exempt=None):
                 total += check_fn(ctx, fn, rule)
     ctx.instance(rule + ".sites", total)
     return total
+
+
+# ------------------------------------------------------------------ R-FLATTEN
+def no_result_flatten(ctx, fx, files, rule="R-FLATTEN", only=None):
+    """`Result` implements IntoIterator (Ok -> one item, Err -> none), so `iter.flatten()` / `flat_map(|r| r)` /
+    `filter_map(Result::ok)` over an iterator of Results compiles and silently drops every failure. In the files where
+    each item / task must end in exactly one result or a reported error, no such call is made on an iterator whose
+    item type is `Result<_, _>`."""
+    import re as _re
+    from vlib.mir import Fn, op_local
+    n = 0
+    for f in files:
+        for fid in fx.fn_ids(f):
+            if "::tests::" in fid or (only and not only(fid)):
+                continue
+            for k in range(fx.count(fid)):
+                fn = Fn(fx.raw(fid, k))
+                for b, c in fn.calls():
+                    last = c["f"].rsplit("::", 1)[-1]
+                    if last not in ("flatten", "filter_map", "flat_map") or "Iterator" not in c["f"] or not c["a"]:
+                        continue
+                    l = op_local(c["a"][0])
+                    if l is None:
+                        continue
+                    ty = fn.ty(l)
+                    # item type of the adapter chain: the innermost generic argument list that mentions Result
+                    over_results = bool(_re.search(r"(IntoIter|Iter|Drain|Map|Chain|Zip|Enumerate)<.*result::Result<", ty))
+                    if not over_results:
+                        continue
+                    if last == "filter_map":
+                        # only `filter_map(Result::ok)` / `|r| r.ok()` drops errors: the closure argument is Result::ok or calls it
+                        a1 = c["a"][1] if len(c["a"]) > 1 else None
+                        t1 = fn.ty(op_local(a1)) if a1 is not None and op_local(a1) is not None else ""
+                        if "Result::<" not in t1 and "::ok" not in t1:
+                            body = [x for x in fx.fn_ids(f) if x.startswith(fid.split("::{")[0]) and "{closure" in x]
+                            drops = False
+                            for bid in body:
+                                for kk in range(fx.count(bid)):
+                                    if any(cc["f"].endswith("Result::<T, E>::ok") for bb, cc in Fn(fx.raw(bid, kk)).calls()):
+                                        drops = True
+                            if not drops:
+                                continue
+                    n += 1
+                    ctx.analysed_fns.add(fid)
+                    ctx.obligation(rule, fid, "no %s over an iterator of Results" % last, False,
+                                   sample={"fn": fid, "line": c["ln"], "iterator": ty[:100]})
+                    ctx.violation(rule, fid, "%s over Results drops the failures" % last,
+                                  "%s calls Iterator::%s (line %d) on %s: every Err item vanishes, the caller gets Ok with fewer, "
+                                  "shifted results" % (fid.rsplit("::{", 1)[0].rsplit("::", 1)[-1], last, c["ln"], ty[:90]), fn.file, c["ln"])
+    ctx.instance(rule + ".sites", n)
+    return n
